@@ -6,9 +6,10 @@ the checks report as a broken obligation):
 1. PIN the statement shape of every region of signature.py that the hand
    models Binder/Bind.v and Binder/SigAssign.v mirror line by line:
        Signature.validate, preprocess_args, _preprocess_kwargs_kv_pairs,
-       Signature.can_assign, can_assign_var_positional, can_assign_var_keyword
-   (Signature.bind_arguments is no longer pinned: its initialisation, its five
-   per-kind arms and its final checks are translated, see 2).
+       can_assign_var_positional, can_assign_var_keyword
+   (Signature.bind_arguments and Signature.can_assign are no longer pinned: their
+   initialisation, their five per-kind arms and their final checks / final loop are
+   translated, see 2).
    The region's AST is normalised (docstrings dropped; the message arguments
    of show_call_error / on_error / CanAssignError / InvalidSignature and
    `message = ...` assignments replaced by a placeholder, so that wording may
@@ -28,6 +29,12 @@ the checks report as a broken obligation):
      * the four checks after the loop of bind_arguments
          -> gen_finish : actuals -> gstate -> bool
        (obligation: gen_finish a (core st) = Bind.finish_with eka a st);
+     * the five per-kind arms of the comparison loop of Signature.can_assign, by
+       symbolic execution over the three consumed-sets and the list of type
+       obligations (a type test contributes the pair (their parameter, my parameter)
+       when its result is recorded, and must be guarded by the isinstance check)
+         -> gen_sca_step : sig -> nat -> cstate -> param -> option cstate
+       (obligation: gen_sca_step = SigAssign.sca_step);
      * the "takes extra (required) parameter" loop after the comparison loop
        of Signature.can_assign
          -> gen_extra_required_ok : cstate -> param -> bool
@@ -58,7 +65,6 @@ def _fail(node, why):
 
 REGIONS = [
     ("Signature", "validate"),
-    ("Signature", "can_assign"),
     (None, "preprocess_args"),
     (None, "_preprocess_kwargs_kv_pairs"),
     (None, "can_assign_var_positional"),
@@ -563,6 +569,214 @@ def translate_arms(fn):
     out.append("  end.\n")
     return "\n".join(out)
 
+
+# ---------------------------------------------------------------------------
+# symbolic execution of the per-kind arms of the comparison loop of Signature.can_assign
+#
+# state: one Gallina expression `st` of type cstate, wrapped by add_cpos / add_crpo /
+# add_ckw / add_obl / opt_obl / push_obls as the statements are executed.  A type test
+#     X = <annotation>.can_assign(my_annotation, ctx) | can_assign_var_positional(...) | can_assign_var_keyword(...)
+#     if isinstance(X, CanAssignError): return ...
+#     tv_maps.append(X) | tv_maps += X
+# contributes the obligation (their parameter, my parameter) when the result is recorded;
+# the translator insists that the isinstance-check stands between the two.
+
+CA_KIND_TUPLE = {
+    "(ParameterKind.POSITIONAL_ONLY, ParameterKind.POSITIONAL_OR_KEYWORD)": "[PO; POK]",
+    "(ParameterKind.POSITIONAL_OR_KEYWORD, ParameterKind.KEYWORD_ONLY)": "[POK; KO]",
+    "(ParameterKind.KEYWORD_ONLY, ParameterKind.POSITIONAL_OR_KEYWORD)": "[KO; POK]",
+}
+EXTRA_POS = "[param for param in their_params if param.name not in consumed_positional and param.kind in (ParameterKind.POSITIONAL_ONLY, ParameterKind.POSITIONAL_OR_KEYWORD)]"
+EXTRA_KW = "[param for param in their_params if param.name not in consumed_keyword and param.kind in (ParameterKind.KEYWORD_ONLY, ParameterKind.POSITIONAL_OR_KEYWORD) and (param.name not in consumed_required_pos_only)]"
+
+
+def ca_param(e):
+    """expression denoting one of THEIR parameters -> Gallina param"""
+    t = ast.unparse(e)
+    if t == "their_params[i]":
+        return "(their a i)"
+    if t == "their_param":
+        return "(named a m)"
+    _fail(e, "unknown parameter expression in can_assign")
+
+
+def ca_cond(e):
+    t = ast.unparse(e)
+    if isinstance(e, ast.BoolOp):
+        op = " && " if isinstance(e.op, ast.And) else " || "
+        return "(" + op.join(ca_cond(v) for v in e.values) + ")"
+    if isinstance(e, ast.UnaryOp) and isinstance(e.op, ast.Not):
+        return f"(negb {ca_cond(e.operand)})"
+    if t == "i < len(their_params)":
+        return "(has_their a i)"
+    if t == "their_param is not None":
+        return "(has_named a m)"
+    if t == "args_annotation is not None":
+        return "(hasvp a)"
+    if t == "kwargs_annotation is not None":
+        return "(hasvk a)"
+    if t == "args_annotation is None":
+        return "(negb (hasvp a))"
+    if t == "kwargs_annotation is None":
+        return "(negb (hasvk a))"
+    if t == "my_param.default is not None":
+        return "(pdefault m)"
+    if isinstance(e, ast.Compare) and len(e.ops) == 1:
+        l, r = e.left, e.comparators[0]
+        if isinstance(l, ast.Attribute) and l.attr == "kind":
+            q = ca_param(l.value)
+            if isinstance(e.ops[0], ast.In) and ast.unparse(r) in CA_KIND_TUPLE:
+                return f"(kind_in (pkind {q}) {CA_KIND_TUPLE[ast.unparse(r)]})"
+            if isinstance(e.ops[0], ast.Is) and isinstance(r, ast.Attribute) and _is_name(r.value, "ParameterKind") and r.attr in KIND:
+                return f"(kind_eqb (pkind {q}) {KIND[r.attr]})"
+        if isinstance(l, ast.Attribute) and l.attr == "default" and isinstance(r, ast.Constant) and r.value is None and not _is_name(l.value, "my_param"):
+            q = ca_param(l.value)
+            return f"(negb (pdefault {q}))" if isinstance(e.ops[0], ast.Is) else f"(pdefault {q})"
+        if isinstance(e.ops[0], ast.NotEq) and ast.unparse(l) == "my_param.name" and isinstance(r, ast.Attribute) and r.attr == "name":
+            return f"(negb (N.eqb (pname m) (pname {ca_param(r.value)})))"
+    _fail(e, "unsupported test in an arm of can_assign")
+
+
+def is_obligation_check(st):
+    """if isinstance(X, CanAssignError): return ...   -> X"""
+    if isinstance(st, ast.If) and not st.orelse and isinstance(st.test, ast.Call) and _is_name(st.test.func, "isinstance"):
+        a = st.test.args
+        if len(a) == 2 and isinstance(a[0], ast.Name) and _is_name(a[1], "CanAssignError") and len(st.body) == 1 and isinstance(st.body[0], ast.Return):
+            return a[0].id
+    return None
+
+
+def ca_obligation_source(value, env):
+    """right-hand side of `X = ...` for a type test -> function wrapping the state expression"""
+    t = ast.unparse(value)
+    if t == "their_annotation.can_assign(my_annotation, ctx)":
+        if "their_annotation" not in env:
+            _fail(value, "their_annotation used before it is assigned")
+        q = env["their_annotation"]
+        return lambda st: f"(add_obl (pname {q}) (pname m) {st})"
+    if t == "args_annotation.can_assign(my_annotation, ctx)":
+        return lambda st: f"(opt_obl (param_of_kind VP a) (pname m) {st})"
+    if t == "kwargs_annotation.can_assign(my_annotation, ctx)":
+        return lambda st: f"(opt_obl (param_of_kind VK a) (pname m) {st})"
+    if t == "can_assign_var_positional(my_param, args_annotation, i - their_args_index, ctx)":
+        return lambda st: f"(opt_obl (param_of_kind VP a) (pname m) {st})"
+    if t == "can_assign_var_keyword(my_param, kwargs_annotation, ctx)":
+        return lambda st: f"(opt_obl (param_of_kind VK a) (pname m) {st})"
+    return None
+
+
+def ca_exec(stmts, env):
+    """-> Gallina term of type option cstate"""
+    for k, st in enumerate(stmts):
+        rest = stmts[k + 1 :]
+        if isinstance(st, ast.Return):
+            if isinstance(st.value, ast.Call) and _is_name(st.value.func, "CanAssignError"):
+                return "None"
+            _fail(st, "unexpected return in an arm of can_assign")
+        x = is_obligation_check(st)
+        if x is not None:
+            if env.get("pending", {}).get(x) is None:
+                _fail(st, f"isinstance check of `{x}` without a preceding type test")
+            env["checked"] = env.get("checked", set()) | {x}
+            continue
+        if isinstance(st, ast.If):
+            c = ca_cond(st.test)
+            e1, e2 = dict(env), dict(env)
+            t = ca_exec(st.body + rest, e1)
+            f = ca_exec(st.orelse + rest, e2)
+            return t if t == f else f"(if {c} then {t} else {f})"
+        if isinstance(st, ast.Assign) and len(st.targets) == 1 and isinstance(st.targets[0], ast.Name):
+            name, v = st.targets[0].id, st.value
+            if name == "their_annotation" and isinstance(v, ast.Call) and isinstance(v.func, ast.Attribute) and v.func.attr == "get_annotation":
+                env["their_annotation"] = ca_param(v.func.value)
+                continue
+            if name == "their_param" and ast.unparse(v) == "other.parameters.get(my_param.name)":
+                continue
+            src = ca_obligation_source(v, env)
+            if src is not None and name in ("tv_map", "new_tv_maps"):
+                env["pending"] = {**env.get("pending", {}), name: src}
+                env["checked"] = env.get("checked", set()) - {name}
+                continue
+            if name == "extra_positional" and ast.unparse(v) == EXTRA_POS:
+                env["extra"] = f"(filter (fun q => negb (memN (pname q) (cpos {env['st']})) && is_positional (pkind q)) a)"
+                continue
+            if name == "extra_keyword" and ast.unparse(v) == EXTRA_KW:
+                env["extra"] = f"(filter (fun q => negb (memN (pname q) (ckw {env['st']})) && is_kw_target (pkind q) && negb (memN (pname q) (crpo {env['st']}))) a)"
+                continue
+            _fail(st, "unsupported assignment in an arm of can_assign")
+        if isinstance(st, ast.For) and ast.unparse(st.target) == "extra_param" and ast.unparse(st.iter) in ("extra_positional", "extra_keyword"):
+            body = [ast.unparse(b) for b in st.body]
+            if not (len(st.body) == 3 and body[0] == "tv_map = extra_param.get_annotation().can_assign(my_annotation, ctx)" and is_obligation_check(st.body[1]) == "tv_map" and body[2] == "tv_maps.append(tv_map)") or "extra" not in env:
+                _fail(st, "unexpected loop over the extra parameters")
+            env["st"] = f"(push_obls (map (fun q => (pname q, pname m)) {env.pop('extra')}) {env['st']})"
+            continue
+        if isinstance(st, ast.AugAssign) and _is_name(st.target, "tv_maps") and isinstance(st.value, ast.Name):
+            x = st.value.id
+            if x not in env.get("checked", set()):
+                _fail(st, f"`{x}` recorded without the isinstance check")
+            env["st"] = env["pending"][x](env["st"])
+            continue
+        if isinstance(st, ast.Expr) and isinstance(st.value, ast.Call):
+            f = ast.unparse(st.value.func)
+            args = st.value.args
+            if f == "tv_maps.append" and len(args) == 1 and isinstance(args[0], ast.Name):
+                x = args[0].id
+                if x not in env.get("checked", set()):
+                    _fail(st, f"`{x}` recorded without the isinstance check")
+                env["st"] = env["pending"][x](env["st"])
+                continue
+            sets = {"consumed_positional.add": "add_cpos", "consumed_required_pos_only.add": "add_crpo", "consumed_keyword.add": "add_ckw"}
+            if f in sets and len(args) == 1 and isinstance(args[0], ast.Attribute) and args[0].attr == "name":
+                env["st"] = f"({sets[f]} (pname {ca_param(args[0].value)}) {env['st']})"
+                continue
+            _fail(st, "unsupported call statement in an arm of can_assign")
+        _fail(st, "unsupported statement in an arm of can_assign")
+    return f"Some {env['st']}"
+
+
+def translate_ca_arms(fn):
+    loops = [st for st in fn.body if isinstance(st, ast.For) and ast.unparse(st.iter) == "enumerate(self.parameters.values())"]
+    if len(loops) != 1 or ast.unparse(loops[0].target) != "(i, my_param)":
+        _fail(fn, "can_assign: expected `for i, my_param in enumerate(self.parameters.values()):`")
+    loop = loops[0]
+    # the values the arms rely on
+    pre = {ast.unparse(st) for st in fn.body[: fn.body.index(loop)]}
+    for want in (
+        "their_params = list(other.parameters.values())",
+        "their_args = other.get_param_of_kind(ParameterKind.VAR_POSITIONAL)",
+        "their_kwargs = other.get_param_of_kind(ParameterKind.VAR_KEYWORD)",
+        "consumed_positional = set()",
+        "consumed_required_pos_only = set()",
+        "consumed_keyword = set()",
+        "return_tv_map = my_return.can_assign(their_return, ctx)",
+    ):
+        if want not in pre:
+            raise TranslateError(f"signature.py: can_assign no longer contains `{want}` before the comparison loop")
+    body = loop.body
+    if not (len(body) == 2 and ast.unparse(body[0]) == "my_annotation = my_param.get_annotation()" and isinstance(body[1], ast.If)):
+        _fail(loop, "can_assign: unexpected body of the comparison loop")
+    arms = {}
+    node = body[1]
+    while True:
+        t = node.test
+        k = None
+        if isinstance(t, ast.Compare) and len(t.ops) == 1 and isinstance(t.ops[0], ast.Is) and ast.unparse(t.left) == "my_param.kind" and isinstance(t.comparators[0], ast.Attribute):
+            k = t.comparators[0].attr
+        if k is None:
+            _fail(t, "comparison arm is not selected by `my_param.kind is ParameterKind.X`")
+        arms[k] = node.body
+        if len(node.orelse) == 1 and isinstance(node.orelse[0], ast.If):
+            node = node.orelse[0]
+        else:
+            break
+    out = ["Definition gen_sca_step (a : sig) (i : nat) (st : cstate) (m : param) : option cstate :=", "  match pkind m with"]
+    for k, coq in KIND.items():
+        if k not in arms:
+            raise TranslateError(f"signature.py: can_assign has no arm for {k}")
+        out.append(f"  | {coq} =>\n      {ca_exec(arms[k], {'st': 'st'})}")
+    out.append("  end.\n")
+    return "\n".join(out)
+
 # ---------------------------------------------------------------------------
 
 
@@ -586,7 +800,7 @@ def translate(repo: str) -> str:
         "(* GENERATED by harness/translate/binder.py from pyanalyze/signature.py — do not edit. *)",
         "From Coq Require Import List Bool NArith PeanoNat.",
         "Import ListNotations.",
-        "Require Import PV.Binder.Kind PV.Binder.Sig PV.Binder.Bind PV.Binder.BindCore PV.Binder.SigAssign.",
+        "Require Import PV.Binder.Kind PV.Binder.Sig PV.Binder.Bind PV.Binder.BindCore PV.Binder.SigAssign PV.Binder.SigAssignCore.",
         "",
         "(* digests of the pinned regions (statement shape as modelled) *)",
     ]
@@ -594,6 +808,7 @@ def translate(repo: str) -> str:
         lines.append(f"(* {name}: {cur['digest']} *)")
     lines += ["", "(* the five per-kind arms of the loop of Signature.bind_arguments (symbolic execution) *)", translate_arms(bind)]
     lines += ["(* the four rejecting checks after the loop of Signature.bind_arguments *)", translate_finish(bind)]
+    lines += ["(* the five per-kind arms of the comparison loop of Signature.can_assign (symbolic execution) *)", translate_ca_arms(ca)]
     lines += ["(* the loop over their parameters after the comparison loop of Signature.can_assign *)", translate_extra_required(ca)]
     return "\n".join(lines)
 
